@@ -828,3 +828,80 @@ Lemma anyof_negative_refuted :
   In (O, (Some (PInt 4), NSmaller, KMinimum 5)) (anyof_negative_numbers [[KMinimum 5]; [KMaximum 10]] [])
   /\ existsb (fun b => conforms b (PInt 4)) [[KMinimum 5]; [KMaximum 10]] = true.
 Proof. vm_compute. intuition. Qed.
+
+(* ====================================================================== *)
+(* Part 4: object-level generators                                         *)
+(* ====================================================================== *)
+Lemma cover_sub_negative_ctx c s m :
+  sub_respects_modes s = true -> In m (cover_sub (with_negative_ctx c) s) -> m = Neg.
+Proof.
+  unfold sub_respects_modes, cover_sub, with_negative_ctx. cbn [fst snd app].
+  intros H Hin. apply andb_true_iff in H. destruct H as [_ H].
+  apply is_neg_Neg. exact (forallb_in _ _ _ H Hin).
+Qed.
+
+Lemma wrap_all_labels c mk subs it :
+  forallb sub_respects_modes subs = true -> In it (wrap_all c mk subs) ->
+  oi_label it = Neg /\ oi_sub it = Some Neg.
+Proof.
+  intros H Hin. unfold wrap_all in Hin. apply in_flat_map in Hin. destruct Hin as ([i s] & His & Hin).
+  apply enumerate_in in His. pose proof (forallb_in _ _ _ H His) as Hs.
+  apply in_map_iff in Hin. destruct Hin as (m & Hit & Hm). cbn [fst snd] in *. subst it. cbn [oi_label oi_sub].
+  split; [reflexivity|]. f_equal. eapply cover_sub_negative_ctx; eassumption.
+Qed.
+
+Definition key_respects_modes (k : okey) : bool :=
+  match k with
+  | OKProperties subs | OKPatternProperties subs => forallb sub_respects_modes subs
+  | OKItems sub => sub_respects_modes sub
+  | _ => true
+  end.
+
+(* labels of sub-values are never flipped: whatever is yielded as NegativeValue by the object/array
+   wrappers wraps a NEGATIVE value of the sub-schema, or is structural *)
+Lemma object_wrappers_keep_labels : forall c keys it,
+  forallb key_respects_modes keys = true ->
+  In it (object_negatives c keys) ->
+  snd c = true /\ oi_label it = Neg /\ (oi_sub it = Some Neg \/ oi_sub it = None).
+Proof.
+  intros c keys it H Hin. unfold object_negatives in Hin.
+  destruct (snd c); [|destruct Hin]. split; [reflexivity|].
+  apply in_flat_map in Hin. destruct Hin as (k & Hk & Hin).
+  pose proof (forallb_in _ _ _ H Hk) as Hkr.
+  destruct k as [subs|subs|sub|n|]; cbn [object_key_negatives key_respects_modes] in *.
+  - destruct (wrap_all_labels _ _ _ _ Hkr Hin) as [H1 H2]. split; [exact H1|left; exact H2].
+  - destruct (wrap_all_labels _ _ _ _ Hkr Hin) as [H1 H2]. split; [exact H1|left; exact H2].
+  - apply in_map_iff in Hin. destruct Hin as (m & Hit & Hm). subst it. cbn [oi_label oi_sub].
+    split; [reflexivity|left]. f_equal. eapply cover_sub_negative_ctx; eassumption.
+  - apply in_map_iff in Hin. destruct Hin as (i & Hit & _). subst it. split; [reflexivity|right; reflexivity].
+  - destruct Hin as [Hit|[]]. subst it. split; [reflexivity|right; reflexivity].
+Qed.
+
+(* what the seeded change did: iterate the sub-schema with the caller's context *)
+Definition wrap_all_callers_ctx (c : gctx) (mk : nat -> wrapper) (subs : list osub) : list oitem :=
+  flat_map (fun is => map (fun m => {| oi_label := Neg; oi_via := mk (fst is); oi_sub := Some m |}) (cover_sub c (snd is)))
+           (enumerate_from 0 subs).
+Definition sub_string : osub := {| os_pos := [Pos; Pos; Pos]; os_neg := [Neg; Neg; Neg] |}.
+Lemma callers_ctx_flips_labels :
+  In {| oi_label := Neg; oi_via := WPatternProperty 0; oi_sub := Some Pos |} (wrap_all_callers_ctx (true, true) WPatternProperty [sub_string])
+  /\ sub_respects_modes sub_string = true
+  /\ length (object_negatives (true, true) [OKProperties [sub_string]; OKPatternProperties [sub_string]; OKRequired 1; OKAdditionalFalse]) = 8%nat.
+Proof. vm_compute. intuition. Qed.
+
+(* ---- _positive_object ignores minProperties ---- *)
+Lemma object_subset_sizes_partial : forall r o minp d n,
+  (minp <= r)%nat -> In (d, n) (object_subset_sizes r o) -> (minp <= n)%nat.
+Proof.
+  intros r o minp d n Hr Hin. unfold object_subset_sizes in Hin.
+  apply in_app_or in Hin. destruct Hin as [Hin|Hin].
+  - destruct (Nat.eqb o 1); [destruct Hin|]. apply in_map_iff in Hin. destruct Hin as (x & H & _). inversion H. lia.
+  - apply in_app_or in Hin. destruct Hin as [Hin|Hin].
+    + apply in_map_iff in Hin. destruct Hin as (x & H & _). inversion H. lia.
+    + destruct (Nat.eqb o 0); [destruct Hin|]. destruct Hin as [H|[]]. inversion H. lia.
+Qed.
+(* two optional properties, minProperties 1: the object with only required properties is empty *)
+Lemma object_subset_sizes_refuted : In (OOnlyRequired, 0%nat) (object_subset_sizes 0 2) /\ (0 < 1)%nat.
+Proof. vm_compute. intuition. Qed.
+Lemma object_subset_sizes_nonvacuous :
+  object_subset_sizes 1 3 = [(OOneOptional, 2%nat); (OOneOptional, 2%nat); (OOneOptional, 2%nat); (OSubset, 3%nat); (OOnlyRequired, 1%nat)].
+Proof. reflexivity. Qed.
